@@ -505,6 +505,12 @@ fn check_arch(db: &LayoutDb, x: &Arch, idx: usize, seed: u64, sink: &Sink) {
 				let known = ["start.raw", "metadata.json", "peppi.json", "frames.arrow", "end.raw", "gecko_codes.raw"][(n + idx / 4) % 6];
 				name = format!("{}/{}.orig-copy{}", "x".repeat(99 - known.len()), known, if (idx / 8) % 2 == 0 { "" } else { "2" });
 			}
+			// members that are not regular files (a directory, a symbolic link, a hard link, a fifo): unknown all the same
+			let mut d = d;
+			if intact && idx % 4 == 3 {
+				name = format!("{}!{}", ["dir", "symlink", "hardlink", "fifo"][(n + idx / 4) % 4], ["notes/", "latest", "start.raw.link", "pipe"][(n + idx / 4) % 4]);
+				d = vec![];
+			}
 			crafted.push((name, d));
 		} else {
 			let e = it.next().expect("model archive has more known entries than the writer produced");
